@@ -143,7 +143,7 @@ def regen_inputs(ctx):
                'the edge that produces the regeneration outputs does not '
                'depend on the regeneration inputs')
         allf = F.effects(f, lambda e: True, depth=1)
-        regen = [e for e in allf if has(e.heads(), "tool('bfg9000')") and
+        regen = [e for e in allf if e.callee_is("tool('bfg9000')") and
                  e.call.args and isinstance(e.call.args[0], ast.Constant)
                  and e.call.args[0].value == 'regenerate']
         ok = bool(regen) and all(_true(e, 'lazy') for e in regen)
@@ -680,8 +680,7 @@ def source_registration(ctx):
     ctx.ob(R, 'BuildInputs.add_source|stores', ok, asrc.node,
            'add_source does not record the source')
     dc = F.fn('bfg9000.builtins.dist:_dist_command')
-    arch = [e for e in F.effects(dc, lambda e: has(
-        e.heads(), "tool('doppel')"), depth=1)]
+    arch = [e for e in F.effects(dc, lambda e: e.callee_is("tool('doppel')"), depth=1)]
     srcdir_ok = ok = bool(arch)
     for e in arch:
         a = e.all_args()
